@@ -20,9 +20,157 @@ def strip(e):
     return e
 
 
+class Composer:
+    """Composition of decision tables across calls to local loop-free functions, on abstract values of a finite domain:
+    ints/bools, ("enum", discriminant), lists (array literals), tuples, ("Some", v) / ("None",).  A call is resolved by
+    looking up the callee's own table at the point induced by the argument values (nothing is executed: every step
+    is the selection of the one path whose conditions hold, and the reading of its leaf)."""
+
+    def __init__(self, prog, max_depth=8):
+        self.prog = prog
+        self.tables = {}
+        self.max_depth = max_depth
+
+    def table(self, fn):
+        if fn not in self.tables:
+            b = self.prog.bodies.get(fn)
+            t = Table(b, composer=self) if b is not None else None
+            self.tables[fn] = t if t is not None and t.is_table else None
+        return self.tables[fn]
+
+    def _discr(self, adt_variant, vidx):
+        adt = adt_variant.rsplit("::", 1)[0]
+        a = self.prog.adts.get(adt)
+        if a and vidx is not None and vidx < len(a["variants"]):
+            return int(a["variants"][vidx]["discr"])
+        return None
+
+    def absval(self, e, point, depth=0):
+        if depth > 40:
+            raise Undecided("expression too deep")
+        if is_const(e):
+            return e[1]
+        if not isinstance(e, tuple):
+            raise Undecided(f"cannot evaluate {e!r}")
+        k = e[0]
+        if k in ("deref", "ref"):
+            return self.absval(e[1], point, depth + 1)
+        if k == "cast":
+            return self.absval(e[2], point, depth + 1)
+        if k == "chk":
+            return self.absval(e[1], point, depth + 1)
+        if k == "p":
+            for kind in ("discr", "val", "abs"):
+                if (kind, e[1]) in point:
+                    v = point[(kind, e[1])]
+                    return ("enum", v) if kind == "discr" else v
+            raise Undecided(f"parameter {e[1]} is not part of the domain point")
+        if k == "kvariant":
+            d = self._discr(e[1], e[2])
+            if d is None:
+                raise Undecided(f"unknown variant {e[1]}")
+            return ("enum", d)
+        if k == "agg":
+            if e[1] == "adt":
+                if e[2].startswith("std::option::Option::"):
+                    return ("Some", self.absval(e[3][0], point, depth + 1)) if e[2].endswith("::Some") else ("None",)
+                if not e[3]:
+                    d = self._discr(e[2], e[4] if len(e) > 4 else None)
+                    if d is not None:
+                        return ("enum", d)
+                return ("adt", e[2], tuple(self.absval(x, point, depth + 1) for x in e[3]))
+            if e[1] == "array":
+                return [self.absval(x, point, depth + 1) for x in e[3]]
+            if e[1] == "tuple":
+                return tuple(self.absval(x, point, depth + 1) for x in e[3])
+        if k == "repeat":
+            return [self.absval(e[1], point, depth + 1)] * int(e[2])
+        if k == "discr":
+            v = self.absval(e[1], point, depth + 1)
+            if isinstance(v, tuple) and v and v[0] == "enum":
+                return v[1]
+            if isinstance(v, tuple) and v and v[0] in ("Some", "None"):
+                return 1 if v[0] == "Some" else 0
+            raise Undecided(f"discriminant of a non-enum value {v!r}")
+        if k == "idx":
+            base, i = self.absval(e[1], point, depth + 1), self.absval(e[2], point, depth + 1)
+            if isinstance(base, list) and isinstance(i, int) and 0 <= i < len(base):
+                return base[i]
+            raise Undecided("index outside an array literal")
+        if k == "fld":
+            base = self.absval(e[1], point, depth + 1)
+            if isinstance(base, tuple) and base and base[0] == "adt" and isinstance(e[2], int) and e[2] < len(base[2]):
+                return base[2][e[2]]
+            if isinstance(base, tuple) and base and base[0] == "Some" and e[2] in (0, "0"):
+                return base[1]
+            if isinstance(base, tuple) and isinstance(e[2], int) and base and base[0] not in ("adt", "enum", "Some", "None") and e[2] < len(base):
+                return base[e[2]]
+            raise Undecided(f"field {e[2]!r} of {base!r}")
+        if k == "down":
+            return self.absval(e[1], point, depth + 1)
+        if k == "un" and e[1] == "Not":
+            v = self.absval(e[2], point, depth + 1)
+            return (not v) if isinstance(v, bool) else ~v
+        if k == "bin":
+            a, b = self.absval(e[2], point, depth + 1), self.absval(e[3], point, depth + 1)
+            op = e[1]
+            if op in ("Eq", "Ne"):
+                return (a == b) if op == "Eq" else (a != b)
+            if isinstance(a, (int, bool)) and isinstance(b, (int, bool)):
+                a, b = int(a), int(b)
+                if op in ("Lt", "Le", "Gt", "Ge"):
+                    return {"Lt": a < b, "Le": a <= b, "Gt": a > b, "Ge": a >= b}[op]
+                if op in ("Add", "Sub", "Mul", "BitAnd", "BitOr", "BitXor"):
+                    return {"Add": a + b, "Sub": a - b, "Mul": a * b, "BitAnd": a & b, "BitOr": a | b, "BitXor": a ^ b}[op]
+            raise Undecided(f"operator {op} on {a!r}, {b!r}")
+        if k == "call":
+            return self.call(e[1], e[2], point, depth + 1)
+        raise Undecided(f"cannot evaluate {e!r}")
+
+    def call(self, callee, args, point, depth=0):
+        import re as _re
+
+        if depth > self.max_depth * 5:
+            raise Undecided("call nesting too deep")
+        base = _re.sub(r"::<[^<>]*>$", "", callee)
+        if base.endswith("::contains") and len(args) == 2:
+            hay, needle = self.absval(args[0], point, depth + 1), self.absval(args[1], point, depth + 1)
+            if isinstance(hay, list):
+                return needle in hay
+        if "PartialEq" in base and base.endswith("::eq") and len(args) == 2:
+            return self.absval(args[0], point, depth + 1) == self.absval(args[1], point, depth + 1)
+        if "PartialEq" in base and base.endswith("::ne") and len(args) == 2:
+            return self.absval(args[0], point, depth + 1) != self.absval(args[1], point, depth + 1)
+        if base.endswith("intrinsics::discriminant_value") and len(args) == 1:
+            v = self.absval(args[0], point, depth + 1)
+            if isinstance(v, tuple) and v and v[0] == "enum":
+                return v[1]
+        if base.endswith("Option::<T>::is_some") or base.endswith("Option::<T>::is_none"):
+            v = self.absval(args[0], point, depth + 1)
+            if isinstance(v, tuple) and v and v[0] in ("Some", "None"):
+                return (v[0] == "Some") == base.endswith("is_some")
+        t = self.table(callee) or self.table(base)
+        if t is None:
+            raise Undecided(f"call to {callee} cannot be composed (not a local loop-free function)")
+        cp = {}
+        for i, a in enumerate(args, 1):
+            v = self.absval(a, point, depth + 1)
+            if isinstance(v, tuple) and v and v[0] == "enum":
+                cp[("discr", i)] = v[1]
+            elif isinstance(v, (int, bool)):
+                cp[("val", i)] = int(v)
+            else:
+                cp[("abs", i)] = v
+        path = t.lookup(cp)
+        if path.end != "return":
+            raise Undecided(f"{callee} diverges at {cp}")
+        return self.absval(path.env.local(0), cp, depth + 1)
+
+
 class Table:
-    def __init__(self, body, max_paths=5000):
+    def __init__(self, body, max_paths=5000, composer=None):
         self.body = body
+        self.composer = composer
         ex = Explorer(body, max_paths=max_paths)
         self.paths = ex.explore()
         self.is_table = not ex.truncated and all(p.end in ("return", "diverge", "unreachable") for p in self.paths) and not ex.loops()
@@ -59,6 +207,13 @@ class Table:
             key = ("expr", _path_key(e))
             if key in point:
                 return point[key]
+            if self.composer is not None:
+                v = self.composer.absval(e, point)
+                if isinstance(v, (int, bool)):
+                    return int(v)
+                if isinstance(v, tuple) and v and v[0] == "enum":
+                    return v[1]
+                raise Undecided(f"condition operand {e!r} evaluates to the non-scalar {v!r}")
         raise Undecided(f"cannot resolve condition operand {e!r}")
 
     def lookup(self, point, call_eval=None):
